@@ -94,4 +94,12 @@ BENIGN = [
     dict(name="benign:room-counter-renamed-and-split", props=["C02", "C01"], edits=[
         (TR, "        let mut lineleft = self.width - self.line.len;", "        let used = self.line.len;\n        let mut lineleft = self.width - used;"),
     ]),
+    # ---- forms the round-9 rules must accept
+    dict(name="benign:raw_mode-struct-update", props=["C15", "C11", "C18", "C01", "C10"], edits=[
+        (LIB, "            self.raw = raw;\n            self.draw_borders = false;\n            self", "            Self { raw, draw_borders: false, ..self }"),
+    ]),
+    dict(name="benign:join-in-place", props=["C05", "C01"], edits=[
+        (TR, "        let prev = self.segments[x];\n        self.segments[x] = match prev {\n            Straight | JoinAbove => JoinAbove,\n            JoinBelow | JoinCross => JoinCross,\n            StraightVert => StraightVert,\n        }",
+         "        let seg = &mut self.segments[x];\n        *seg = match *seg {\n            Straight | JoinAbove => JoinAbove,\n            JoinBelow | JoinCross => JoinCross,\n            StraightVert => StraightVert,\n        };"),
+    ]),
 ]
